@@ -26,6 +26,36 @@ def h_quote_style(s: str) -> bool:
     return verdict(a == b and s == a)
 
 
+def _escaped_ok(s: str) -> bool:
+    """a body that is valid inside both quote styles: quotes only as backslash-quote, backslash only before a quote"""
+    i = 0
+    n = len(s)
+    while i < n:
+        c = s[i]
+        if c == BS:
+            if i + 1 >= n or s[i + 1] not in ("'", '"'):
+                return False
+            i += 2
+        elif c == "'" or c == '"' or c == "\n" or c == "\r" or c == "\f":
+            return False
+        else:
+            i += 1
+    return True
+
+
+def h_quote_style_escaped(s: str) -> bool:
+    """
+    pre: len(s) <= 5 and BS in s and _escaped_ok(s)
+    post: _
+    """
+    # the same body with escaped quotes inside either delimiter reads to the same value: the body with every
+    # backslash-quote replaced by the quote
+    a = singleline_string_literal("'" + s + "'")
+    b = singleline_string_literal('"' + s + '"')
+    want = s.replace(BS + "'", "'").replace(BS + '"', '"')
+    return verdict(want == a and want == b)
+
+
 def h_quote_style_multi(s: str) -> bool:
     """
     pre: len(s) <= 4 and "'" not in s and '"' not in s
@@ -141,6 +171,11 @@ OBLIGATIONS = [
     {"id": "C16.S2a", "module": __name__, "func": "h_quote_style",
      "what": "single-line strings: the two quote styles of one body read to the same value (the body itself)",
      "timeout": {"quick": 240, "thorough": 900}, "bounds": "|s| <= 4, no quote or backslash in the body",
+     "encodes": ["explorerscript.ssb_converting.compiler.utils.singleline_string_literal"]},
+    {"id": "C16.S2c", "module": __name__, "func": "h_quote_style_escaped",
+     "what": "single-line strings with escaped quotes: the same body inside '...' and \"...\" reads to the same value (every "
+             "backslash-quote replaced by the quote), wherever the escape sits (start, middle, end, doubled)",
+     "timeout": {"quick": 280, "thorough": 900}, "bounds": "|s| <= 5, at least one backslash, backslashes only before quotes, no line breaks",
      "encodes": ["explorerscript.ssb_converting.compiler.utils.singleline_string_literal"]},
     {"id": "C16.S2b", "module": __name__, "func": "h_quote_style_multi",
      "what": "multi-line strings: the two triple-quote styles of one body read to the same value",
